@@ -38,7 +38,7 @@ def run(ctx: Context) -> None:
     )
     rep.rule("C20.R1", "handlers that loop back catch exactly {ConnectError, ConnectTimeout}")
     rep.rule("C20.R2", "network operations reachable inside the retried region are establishment operations only")
-    rep.rule("C20.R3", "retry counter: initialised from self._retries; raise iff counter <= 0; exactly one decrement per retry path; no other writer")
+    rep.rule("C20.R3", "retry counter (counting down from the limit or up to it): initialised once before the loop from the configured limit / a constant; the exhaustion guard lets through exactly max(retries, 0) retries; exactly one step per retry path; no other writer")
     rep.rule("C20.R4", "one sleep(next(delays)) per retry path; back-off generator folds to 0, 0.5, 1, 2, 4")
     rep.rule("C20.R5", "the `retries` configuration reaches the counter (pool -> connection constructor -> self._retries)")
     loops = 0
@@ -95,24 +95,46 @@ def run(ctx: Context) -> None:
             rep.ob("C20.R3", fkey(tree, f, "raise-guard"), False, where(f, handler),
                    "retry handler has no `if <counter> ...: raise` guard - nothing bounds the number of attempts")
             continue
-        tt = {v: peval(guard_if.test, {ctr: v}) for v in (-1, 0, 1, 2, 5)}
-        want = {-1: True, 0: True, 1: False, 2: False, 5: False}
-        rep.ob("C20.R3", fkey(tree, f, "raise-guard"), tt == want, where(f, guard_if),
-               f"guard `{ast.unparse(guard_if.test)}` over counter values {tt}; must re-raise exactly when the counter is <= 0")
-        rep.ob("C20.R3", fkey(tree, f, "reraise"), any(isinstance(x, ast.Raise) and x.exc is None for x in guard_if.body), where(f, guard_if),
-               "exhausted retries re-raise the last error (bare `raise`)")
-        # initialisation
-        inits = [n for n in own_nodes(f.node) if isinstance(n, ast.Assign) and any(isinstance(t, ast.Name) and t.id == ctr for t in n.targets)]
+        # the counter may count down from the limit or up to it: what is decided is the NUMBER of retries the guard lets through
         in_loop = {id(x) for x in ast.walk(loop)}
+        loop_written = {x.id for n in own_nodes(loop) for x in ast.walk(n) if isinstance(x, ast.Name) and isinstance(x.ctx, ast.Store)}
+        names = [n.id for n in ast.walk(guard_if.test) if isinstance(n, ast.Name) and n.id in loop_written]
+        if names:
+            ctr = names[0]
+        inits = [n for n in own_nodes(f.node) if isinstance(n, ast.Assign) and any(isinstance(t, ast.Name) and t.id == ctr for t in n.targets)]
         pre = [n for n in inits if id(n) not in in_loop]
-        ok_init = len(pre) == 1 and norm(pre[0].value) == "self._retries"
-        rep.ob("C20.R3", fkey(tree, f, "init"), ok_init, where(f, pre[0]) if pre else where(f),
-               f"counter `{ctr}` initialised before the loop by {[ast.unparse(n) for n in pre]}; must be exactly `{ctr} = self._retries`")
         writers = [n for n in own_nodes(loop) if (isinstance(n, (ast.Assign, ast.AugAssign, ast.AnnAssign, ast.NamedExpr))
                    and any(isinstance(x, ast.Name) and isinstance(x.ctx, ast.Store) and x.id == ctr for x in ast.walk(n)))]
-        decs = [n for n in writers if isinstance(n, ast.AugAssign) and isinstance(n.op, ast.Sub) and isinstance(n.value, ast.Constant) and n.value.value == 1]
-        rep.ob("C20.R3", fkey(tree, f, "writers"), len(writers) == len(decs) and len(decs) >= 1, where(f, writers[0]) if writers else where(f, handler),
-               f"writers of `{ctr}` inside the loop: {[ast.unparse(n) for n in writers]}; only `-= 1` is allowed")
+        decs = [n for n in writers if isinstance(n, ast.AugAssign) and isinstance(n.op, (ast.Sub, ast.Add)) and isinstance(n.value, ast.Constant) and n.value.value == 1]
+        dirs = {type(n.op) for n in decs}
+        delta = -1 if dirs == {ast.Sub} else 1 if dirs == {ast.Add} else None
+        sim = {}
+        if len(pre) == 1 and delta is not None:
+            for R in (-1, 0, 1, 2, 5):
+                c = peval(pre[0].value, {"self._retries": R})
+                k = 0
+                while k <= 8 and isinstance(c, int) and not isinstance(c, bool):
+                    g = peval(guard_if.test, {ctr: c, "self._retries": R})
+                    if g is UNKNOWN:
+                        k = None
+                        break
+                    if g:
+                        break
+                    c += delta
+                    k += 1
+                sim[R] = k if isinstance(c, int) else None
+        want = {-1: 0, 0: 0, 1: 1, 2: 2, 5: 5}
+        rep.ob("C20.R3", fkey(tree, f, "raise-guard"), sim == want, where(f, guard_if),
+               f"guard `{ast.unparse(guard_if.test)}` with counter `{ctr}` lets through {sim} retries for retries = -1, 0, 1, 2, 5; must be exactly {want}")
+        rep.ob("C20.R3", fkey(tree, f, "reraise"), any(isinstance(x, ast.Raise) and x.exc is None for x in guard_if.body), where(f, guard_if),
+               "exhausted retries re-raise the last error (bare `raise`)")
+        # initialisation: once, before the loop, a function of the configured limit only
+        init_reads = {norm(x) for n in pre for x in ast.walk(n.value) if isinstance(x, (ast.Name, ast.Attribute))} - {"self"}
+        ok_init = len(pre) == 1 and init_reads <= {"self._retries"}
+        rep.ob("C20.R3", fkey(tree, f, "init"), ok_init, where(f, pre[0]) if pre else where(f),
+               f"counter `{ctr}` initialised before the loop by {[ast.unparse(n) for n in pre]} (a constant or the configured limit)")
+        rep.ob("C20.R3", fkey(tree, f, "writers"), len(writers) == len(decs) and len(decs) >= 1 and delta is not None, where(f, writers[0]) if writers else where(f, handler),
+               f"writers of `{ctr}` inside the loop: {[ast.unparse(n) for n in writers]}; only steps of one in one direction are allowed")
         # paths from the handler back to the loop head
         hn = cfg._by_ast.get(id(handler))
         if not hn:
@@ -126,7 +148,7 @@ def run(ctx: Context) -> None:
             guard_edges = [e for e in p if e.src.ast is guard_if]
             passes_guard = any(e.kind == "f" for e in guard_edges)
             rep.ob("C20.R3", fkey(tree, f, f"retry-path-{i}"), ndec == 1 and passes_guard, where(f, handler),
-                   f"retry path {[n.lineno for n in nodes]}: {ndec} decrement(s) of `{ctr}`, passes the exhaustion guard: {passes_guard}")
+                   f"retry path {[n.lineno for n in nodes]}: {ndec} step(s) of `{ctr}`, passes the exhaustion guard: {passes_guard}")
             sleeps = [n for n in nodes if n.ast is not None and any(isinstance(c, ast.Call) and (chain(c.func) or [''])[-1] == 'sleep' for c in ast.walk(n.ast))
                       and n.kind == "stmt"]
             ok = len(sleeps) == 1
